@@ -55,14 +55,14 @@ def run(tier):
     # (2) programs x splits x start offsets x prefill x repetition, via scripted instances
     cases, cmeta = [], []
     nprog = 400 if not full else 6000
-    fills = [0x00, 0xCC, 0xFF, 0x90]
+    fills = [0x00, 0xCC, 0xFF, 0x90, 0x66, 0x0F, 0xC3, 0x48]
     for k in range(nprog):
         m = masks[k % 3]
         n = rnd.choice([3, 4, 5, 6, 7]) if k % 2 == 0 else rnd.randrange(8, 201)
         prog = [rnd.choice(R + skip) for _ in range(n)]
         exp = enc(prog, m)
         L = len(exp) // 2
-        start = rnd.choice([0, 1, 19, 4095])
+        start = rnd.choice([0, 1, 19, 4095]) if k % 6 else rnd.choice([63, 4096 + 63, 65535, 65536, 70001, 200000])
         if n <= 7 and k % 4 == 0:
             splits = []
             for bits in itertools.product((0, 1), repeat=n - 1):
